@@ -111,6 +111,24 @@ namespace vfc
     {
     };
 
+    // position-distinct element types for the long-list family, and predicates on them
+    template <int I>
+    using e = std::integral_constant<int, I>;
+
+    template <class T>
+    struct is_even : std::integral_constant<bool, (T::value % 2 == 0)>
+    {
+    };
+
+    template <int K>
+    struct ge
+    {
+        template <class T>
+        struct apply : std::integral_constant<bool, (T::value >= K)>
+        {
+        };
+    };
+
     template <class T>
     const char* type_name()
     {
